@@ -50,6 +50,7 @@ TraceCI ==
                LET y == e.v_aff[K(a)] IN
                /\ Close(y[1], e.aff[1] * o(a)[1] + e.aff[2] * FS, 20 + tol)
                /\ Close(y[2], e.aff[1] * o(a)[2] + e.aff[2] * FS, 20 + tol)>>,
+          <<"C13.scale_equivariant", ~ok \/ \A a \in A : pf(a) => same(e.v_small[K(a)], o(a), 20 + tol)>>,
           <<"C13.componentwise", ~ok \/ \A a \in A : same(e.v_stack[K(a)], o(a), 2)>>}))
 
 (* a component without any finite replicate has no limits: NaN, for every method  *)
